@@ -224,9 +224,18 @@ class LayerImpl:
             if a == "clear":
                 self.layer.clear()
                 self.hist = []
+                self.fb0 = 0
                 return {"t": "ok"}
             if a == "clear_fb":
                 self.layer.clear(submodules=False)
+                if not self.hist:
+                    self.fb0 = 0
+                return {"t": "ok"}
+            if a == "clear_keepfb":
+                self.layer.clear(clear_feedback=False)
+                self.hist = []
+                fb = self.project()["fb"]
+                self.fb0 = 0 if fb == -1 else fb      # (Abs bookkeeping: the spikes carried across this clear)
                 return {"t": "ok"}
             if a == "learn":
                 for c in self.conns:
@@ -293,4 +302,4 @@ class LayerImpl:
                 "cm": [scalar_of(c.synapse.mem) for c in self.conns],
                 "nm": [scalar_of(n.mem, None, S) for n in self.neurs],
                 "sp": [scalar_of(n.spike, n.batchedshape, S) for n in self.neurs],
-                "fb": fb, "hist": [dict(h) for h in self.hist]}
+                "fb": fb, "fb0": getattr(self, "fb0", 0), "hist": [dict(h) for h in self.hist]}
